@@ -304,7 +304,7 @@ def _first(labels, order, default):
     return default
 
 
-_IMPORT_RISK = ("ipv6-host", "non-ascii-target", "idn-host", "latin1-header")
+_IMPORT_RISK = ("non-ascii-target", "idn-host", "latin1-header", "ipv6-host")
 _BODY_CAUSE = ("bom", "bom-like-binary", "in-band-charset", "charset-undeclared", "charset", "binary-body", "coded")
 
 
@@ -357,6 +357,8 @@ def check_case(case, ctx, top=True):
             ctx.fail("method", "%r -> %r" % (f.request.method, g.request.method))
         if g.request.pretty_url != f.request.pretty_url:
             why = _first(labels, ("idn-host", "ipv6-host", "empty-query"), "other")
+            if f.request.pretty_url.rstrip("?") == g.request.pretty_url.rstrip("?"):
+                why = "empty-query"  # the only difference is the bare '?' (attribute by symptom, not by first label)
             ctx.fail("url:" + why, "%r -> %r" % (f.request.pretty_url, g.request.pretty_url))
         elif g.request.url != f.request.url:
             ctx.fail("url-attr", "%r -> %r" % (f.request.url, g.request.url))
